@@ -13,12 +13,12 @@ demo=$dir/zz_seed_${m}_demo_test.go
 testname=TestSeedDemo$(echo $m | tr -d 'm')
 cp _seed/${m}_demo_test.go "$demo"
 echo "[$id] demo on original code:"
-go test -vet=off -count=1 -run "^${testname}\$" ./$dir > /tmp/confirm_$id.orig 2>&1; r_orig=$?
+go test ${RACE:+-race} -vet=off -count=1 -run "^${testname}\$" ./$dir > /tmp/confirm_$id.orig 2>&1; r_orig=$?
 tail -2 /tmp/confirm_$id.orig
 git apply _seed/$m.diff || { echo "[$id] PATCH DOES NOT APPLY"; rm -f "$demo"; exit 1; }
 go build ./... || { echo "[$id] BUILD FAILS"; git checkout -q -- .; rm -f "$demo"; exit 1; }
 echo "[$id] demo with the change:"
-go test -vet=off -count=1 -run "^${testname}\$" ./$dir > /tmp/confirm_$id.mut 2>&1; r_mut=$?
+go test ${RACE:+-race} -vet=off -count=1 -run "^${testname}\$" ./$dir > /tmp/confirm_$id.mut 2>&1; r_mut=$?
 tail -3 /tmp/confirm_$id.mut
 rm -f "$demo"
 echo "[$id] baseline with the change:"
